@@ -559,7 +559,10 @@ class Evaluator:
         return b_and(*out)
 
     def e_IfExp(self, node, st):
-        c = truth(self.eval(node.test, st))
+        c = self.eval(node.test, st)
+        if isinstance(c, Opaque):
+            c = fresh_bool("opaque")  # e.g. NUMBA_DISABLE_JIT: both dispatch branches are considered
+        c = truth(c)
         if c is True:
             return self.eval(node.body, st)
         if c is False:
